@@ -52,7 +52,7 @@ def pair_atom(c, fn_prefix, x, y, fld, extra=None):
     """truth of the atom `fn(&x->fld, &y->fld)` (either argument order) on the path, or None"""
     for k, v in c.items():
         if k.startswith(fn_prefix) and ('%s->%s' % (x, fld)) in k and ('%s->%s' % (y, fld)) in k:
-            if extra is None or k.rstrip(')').endswith(extra):
+            if extra is None or k.endswith(extra + ')'):
                 return v
     return None
 
@@ -74,10 +74,12 @@ def check_authority_predicate(ctx, chk, f, suf):
         k6a, k6b = c.get('%s->hostData.ip6' % a), c.get('%s->hostData.ip6' % b)
         kfa, kfb = c.get('%s->hostData.ipFuture.first' % a), c.get('%s->hostData.ipFuture.first' % b)
         if k4a:
-            okh = k4b and pair_atom(c, 'memcmp', a, b, 'hostData.ip4->data', ', 4') is False
+            okh = k4b and (pair_atom(c, 'memcmp', a, b, 'hostData.ip4->data', ', 4') is False
+                           or pair_atom(c, 'memcmp', a, b, 'hostData.ip4->data', ', sizeof(UriIp4)') is False)
             kind = 'IPv4 bytes'
         elif k6a:
-            okh = k6b and pair_atom(c, 'memcmp', a, b, 'hostData.ip6->data', ', 16') is False
+            okh = k6b and (pair_atom(c, 'memcmp', a, b, 'hostData.ip6->data', ', 16') is False
+                           or pair_atom(c, 'memcmp', a, b, 'hostData.ip6->data', ', sizeof(UriIp6)') is False)
             kind = 'IPv6 bytes'
         elif kfa:
             okh = kfb and pair_atom(c, 'uriCompareRange', a, b, 'hostData.ipFuture') is False
@@ -119,7 +121,11 @@ def run(ctx, chk):
     chk.rule('relative-operands', 'a base or source without scheme returns the dedicated code before any allocation', floor=4)
     chk.rule('naked-guard', 'while the produced relative path is still empty, a first segment that is empty or contains ":" is '
              'preceded by a "." segment; domain-root mode passes through the ambiguity guard', floor=4)
+    from .c11 import _compare_range
+    chk.rule('compare-range', 'uriCompareRange (which decides "same scheme", user info, port and host text here): NULL equals only NULL, '
+             'lengths compared, texts compared over the full length in characters', floor=8)
     for suf in ('A', 'W'):
+        _compare_range(ctx, chk, ctx.prog, ctx.irp, suf)
         f = find_impl(ctx, suf)
         dest, S, B, mode = f.params[0], f.params[1], f.params[2], f.params[3]
         pred = find_authority_predicate(ctx, f)
@@ -183,9 +189,13 @@ def run(ctx, chk):
                         row = 'domain-root'
                         if got['path'] != S or a.get('%s->absolutePath' % dest) != '1' or appends:
                             problems.append('domain-root mode: the source path must be copied and made absolute')
-                        okg = bool(guards) and guards[-1][0] == dest
+                        order = [i for i, e in enumerate(ev) if (e[0] == 'call' and base_name(e[1]) == 'uriCopyPath')
+                                 or (e[0] == 'assign' and e[1] == '%s->absolutePath' % dest)]
+                        gidx = [i for i, e in enumerate(ev) if e[0] == 'call' and base_name(e[1]) == 'uriFixAmbiguity' and e[2][0] == dest]
+                        okg = bool(gidx) and bool(order) and gidx[-1] > max(order)
                         chk.add('naked-guard', 'guard:domain-root:%s' % suf, okg, p.retloc, 'absolute copy of the source path %s the '
-                                'ambiguity guard' % ('passes through' if okg else 'is returned WITHOUT'), func=f.name)
+                                'ambiguity guard%s' % ('passes through' if okg else 'is returned WITHOUT', '' if okg else
+                                                   ' (the guard must see the final path and absolute-path flag)'), func=f.name)
                     else:
                         row = 'relative'
                         if got['path'] is not None:
